@@ -122,4 +122,17 @@ CLAIMS = {
                 "the usize subtraction of the statistics cannot panic in either profile (C12 Shape.c12_no_panic); builder-made models cannot hit their two panic sites (C16 c16_args_by_name). Tie: robustness stream in two build profiles under a watchdog.",
         "note": "Trusted: as C01/C04. NOT proved (runtime, sampled only): termination of nalgebra's SVD iteration on finite matrices, absence of panics inside nalgebra / levenberg-marquardt / distrs on extreme finite values. Defect repaired by fix: commit 1b6dc44 (SVD on non-finite input never returned).",
     },
+    "C05": {
+        "category": "other",
+        "text": "PARTIAL: kernel-checked theorems c05_zero_at_truth_partial, c05_truth_bound_partial, c05_stationary_partial, c05_descent_partial (global minimum at the truth, projected objective never above any coefficient choice, the optimizer tests the true first-order condition, a descent direction always exists) "
+                "plus C04's monotone-objective/budget theorems; the convergence clause itself (success from every nearby start, in floating point) is NOT proved and only explored on the certified families with frozen, calibrated thresholds.",
+        "note": "This is deliberately not claimed as proof: nobody should read a theorem into the convergence clause. Trusted for the proved part: as C01/C03.",
+        "technique": "partial Lean 4 proof (named ..._partial) + calibrated failing-input search on certified model families",
+    },
+    "C19": {
+        "category": "other",
+        "text": "PARTIAL: kernel-checked deterministic backbone c19_error_map_partial, c19_residual_map_partial (incl. trace = N-M-P), c19_scale_invariance_partial; the frequency statement (coverage p, mean chi2 1) needs distribution theory not available in Mathlib and is only explored by Monte-Carlo coverage counts on the real code with 6-sigma acceptance bounds.",
+        "note": "Not claimed as proof. The statistics code itself is covered by C12-C14 (proof level).",
+        "technique": "partial Lean 4 proof (named ..._partial) + Monte-Carlo coverage test on the real code",
+    },
 }
